@@ -1308,7 +1308,9 @@ def fixup_relus_with_differing_ifm_ofm_scaling(op: Operation, arch, nng) -> Oper
 
             relu_fused_op.add_input_tensor(ifm)
             relu_fused_op.set_output_tensor(ofm)
-            relu_fused_op.set_ifm_ofm_shapes()
+            # The shapes of the op can differ from those of its tensors (a bypassed reshape), keep them
+            relu_fused_op.ifm_shapes = op.ifm_shapes.copy()
+            relu_fused_op.ofm_shapes = op.ofm_shapes.copy()
             op = relu_fused_op
     return op
 
